@@ -6,7 +6,7 @@ from simlab import chain_evolve
 BASE = {
     "ttno": 2.0, "ttno_same": 1.0, "ttns_random": 3.0, "ttns_product": 0.6, "from_mps": 0.5,
     "add": 2.5, "scale": 1.2, "unary": 1.0, "apply": 2.5, "canonicalise": 1.2, "compress": 1.5,
-    "observe": 4.0, "evolve": 0.0, "lockstep": 0.0, "max_entangled": 0.4, "optimize": 0.0, "expand": 0.3, "normalize": 0.8, "dump_load": 0.4, "drop": 0.3,
+    "observe": 4.0, "evolve": 0.0, "evolve_order": 0.0, "lockstep": 0.0, "max_entangled": 0.4, "optimize": 0.0, "expand": 0.3, "normalize": 0.8, "dump_load": 0.4, "drop": 0.3,
 }
 
 TWEAKS = {
@@ -18,7 +18,7 @@ TWEAKS = {
     "C05": {"compress": 8.0, "add": 3.0, "apply": 3.0, "observe": 0.5, "evolve": 1.5, "ttns_random": 3.0},
     "C06": {"evolve": 3.0, "add": 3.0, "apply": 3.0, "compress": 2.0, "canonicalise": 2.0, "observe": 0.5, "max_entangled": 0.6},
     "C13": {"expand": 2.0, "evolve": 4.0, "observe": 5.0, "drop": 1.0, "scale": 3.0, "unary": 3.5, "compress": 2.0, "canonicalise": 2.0, "dump_load": 0.6},
-    "C12": {"evolve": 9.0, "lockstep": 1.5, "max_entangled": 1.0, "expand": 1.5, "ttno": 2.5, "ttns_random": 2.5, "observe": 0.8, "add": 0.8, "apply": 0.8, "compress": 0.5, "dump_load": 0.2},
+    "C12": {"evolve": 9.0, "evolve_order": 3.0, "lockstep": 1.5, "max_entangled": 1.0, "expand": 1.5, "ttno": 2.5, "ttns_random": 2.5, "observe": 0.8, "add": 0.8, "apply": 0.8, "compress": 0.5, "dump_load": 0.2},
 }
 
 
@@ -32,6 +32,14 @@ class TreeProfile(session.Profile):
         md = rnd.choice([16, 36, 64]) if self.pid == "C12" else rnd.choice([24, 64, 128])
         aux = rnd.random() < {"C02": 0.1, "C11": 0.2, "C12": 0.3, "C08": 0.0}.get(self.pid, 0.2)
         h = tree.gen_header(rnd, maxdim=md, nmax=rnd.choice([3, 4, 5]), aux=aux)
+        if self.pid == "C12" and not aux and rnd.random() < 0.3:
+            # scenario worlds: a branching tree and a sector in which a state at the sector caps is AWAY from the exactness condition of
+            # the splitting integrators (about 5% of the random worlds), found by rejection sampling on the header alone
+            for _ in range(30):
+                if tree.nocentre_candidates(tree.TreeWorld(dict(h, weights={}), session.Stats())):
+                    h["scenario"] = "ps_order"
+                    break
+                h = tree.gen_header(rnd, maxdim=md, nmax=rnd.choice([3, 4, 5]), aux=False)
         wts = dict(BASE)
         wts.update(TWEAKS.get(self.pid, {}))
         for k in list(wts):
@@ -39,6 +47,8 @@ class TreeProfile(session.Profile):
                 wts[k] = 0.0
             elif rnd.random() < 0.3:
                 wts[k] *= rnd.choice([0.3, 3.0])
+        if h.get("scenario") == "ps_order":
+            wts["evolve_order"] = 12.0
         h["weights"] = wts
         if self.pid in ("C02", "C11") and rnd.random() < (0.4 if self.pid == "C02" else 0.15):
             h["knobs"] = {"units_prob": 0.6}
